@@ -197,7 +197,7 @@ impl Iterator for TaikoGradualDifficulty {
     }
 
     fn nth(&mut self, n: usize) -> Option<Self::Item> {
-        let mut take = cmp::min(n, self.len().saturating_sub(1));
+        let mut take = cmp::min(n, self.len());
 
         // The first two notes have no difficulty object but might add to combo
         match (take, self.idx) {
